@@ -356,6 +356,8 @@ def _collect1(w, f):
                     lens.append(t.arg(0))
                 elif n == "concat" and t.num_args() == 2:
                     lens.append(("concat", t))
+                elif n == "nth" and t.num_args() == 2:
+                    lens.append(("nth", t))
                 elif (n.endswith("__list") or n.startswith("comp!")) and t.num_args() >= 1:
                     lens.append(("map", t))
             stack.extend(t.children())
